@@ -12,8 +12,17 @@ the projections) and batches of 1, 2 and 3 columns, and compared with a referenc
 * Image2D: the documented row-major / column-major index formula; Continuous2D: a bijection
   parameters <-> nodes.
 * projections (fun2par of step expansions): mean / max / min over the nodes of a step.
+* vectorised-function form: identity for 1-D function values (including visual-only images), the documented
+  row-major / column-major pixel enumeration for images; vec2fun / fun2vec are called directly on the complete
+  basis of the vector space, on the reference function values and on matrices of columns.
+* representation facet: integer-valued parameter / function / sample arrays are handed over as float64, int64,
+  int32, float32, non-contiguous (strided / Fortran-ordered) and list; oracle = the map (per sample) on the
+  float64 copy.
+* Samples / CUQIarray: a small reference state machine (parameters / function values / function values in vector
+  form); every word of <= 3 conversions is applied and flags + stored values are compared after every step.
 """
 import math
+import os
 from fractions import Fraction
 
 import numpy as np
@@ -25,18 +34,27 @@ PROPERTY = "C13"
 RULE = ("cells = full product of geometry configurations inside the bound (StepExpansion: N x n_steps x offset x "
         "length x grid-builder, all 3 projections inside the cell; KLExpansion: N x num_modes x decay x normaliser; "
         "Continuous2D / Image2D: shape x order x visual_only x grid kind; Discrete; MappedGeometry with inverse; "
-        "default geometries).  Each cell applies par2fun/fun2par/fun2vec/vec2fun to the complete parameter basis "
-        "+ a generic vector + the complete function basis and to batches of 1,2,3 columns, and converts Samples / "
-        "CUQIarray through all representations; a cell is non-trivial when the geometry was constructed and at "
-        "least one map was evaluated on the whole basis")
+        "default geometries).  Each cell applies par2fun/fun2par to the complete parameter basis + a generic vector "
+        "+ the complete function basis, vec2fun/fun2vec directly to the complete basis of the vector form + generic "
+        "vectors (each against the reference, shapes against fun_shape/funvec_shape), all four maps to batches of "
+        "1,2,3 columns; every map, Samples and CUQIarray conversion is repeated on integer-valued inputs held as "
+        "{int64, int32, float32, strided/Fortran-ordered, list} against the float64 result; Samples and CUQIarray "
+        "are driven through EVERY word of <= 3 conversions over {funvals, vector, parameters} (plus burnthin(0,1), "
+        "burnthin(1,2) after the first funvals) with a reference state machine; a cell is non-trivial when the "
+        "geometry was constructed and at least one map was evaluated on the whole basis")
 BOUND = {
     "quick": "StepExpansion N=2..12, n_steps=1..N, offsets {0,0.1,1,-0.3,1e3}, lengths {1,0.7,3,0.1,pi}, builders "
              "{linspace, x0+h*arange} + integer grids, projections {mean,max,min}; KLExpansion N=1..10, num_modes "
              "{None,1..N+1}, decay {2.5,1.5}, normaliser {12,1}; Continuous2D {1..4}^2 x {int grid, array grid}; "
-             "Image2D {1..4}^2 x {C,F} x visual_only; Discrete 1..6 (+named); Mapped over 6 bases x 2 maps; defaults "
-             "1..6 / {1..3}^2; inputs = basis + 1 dyadic vector, batches of 1,2,3 columns",
+             "Image2D {1..4}^2 x {C,F} x visual_only; Discrete 1..6 (+named); Mapped over 9 bases (1D, 2D, images C/F, "
+             "visual-only images C/F, discrete, step, KL) x 3 maps (2x+1, x/4, exp); defaults 1..6 / {1..3}^2; inputs = "
+             "basis + 1 dyadic vector, batches of 1,2,3 columns, 5 non-float64 representations of 2 integer-valued "
+             "samples, conversion words of length <= 3 on 3 samples.  For StepExpansion the representation facet, the "
+             "direct vector-map basis and CUQIarray words of length 3 run on 3 canonical grids per (N, n_steps) (integer "
+             "grid; offset 0.1 / length 0.7 with both builders) x all 3 projections - the other 48 offset/length grids "
+             "keep the float64 maps, batches and Samples words",
     "thorough": "same with StepExpansion N=2..24, KLExpansion N=1..16, Continuous2D/Image2D {1..5}^2, 3 dyadic "
-                "vectors per cell",
+                "vectors per cell (representations, words and batch sizes as in quick)",
 }
 ASSUMPTIONS = [
     "a grid node that coincides (in rational arithmetic) with an interior step boundary is accepted in the lower "
@@ -46,6 +64,13 @@ ASSUMPTIONS = [
     "multi-dimensional function values (not matrices of column vectors) are executed but not judged",
     "a map that raises on a batch is accepted (raises, or equals the per-column result)",
     "geometries without fun2vec (Continuous2D) may refuse the vector form",
+    "representation facet: integer-dtype / float32 / non-contiguous ndarrays must be accepted (they are arrays of "
+    "admissible numbers) and give the float64 result (float32: to 1e-5, single-precision arithmetic inside the maps "
+    "is legitimate); a Python list (maps are documented for arrays) and any batch may be refused; the oracle for "
+    "fun2par on non-float64 input is fun2par on the float64 copy (differential), for par2fun the documented map",
+    "a conversion that is documented to return the object itself may also return an equal copy",
+    "an exception raised by library code on admissible input outside the allowed refusals is a verdict "
+    "(signature ...|raises|...), exceptions of harness code are harness errors",
     "fractions / numpy reshape with explicit index loops are the trusted base of the reference",
 ]
 
@@ -85,8 +110,8 @@ def cells(tier, seed):
     for n in range(1, 7):
         for named in (False, True):
             yield {"fam": "disc", "n": n, "named": named, "cat": k, "nv": nv}
-    for base in ("c1d", "c2d", "imgC", "imgF", "step", "kl"):
-        for mp in ("affine", "exp"):
+    for base in ("c1d", "c2d", "imgC", "imgF", "imgCvo", "imgFvo", "disc", "step", "kl"):
+        for mp in ("affine", "quarter", "exp"):
             yield {"fam": "mapped", "base": base, "map": mp, "cat": k, "nv": nv}
     for n in range(1, 7):
         for kind in ("default1d", "c1d-int", "c1d-tuple", "c1d-list", "samples-default", "array-default"):
@@ -107,6 +132,51 @@ def _sq(shape):
     return tuple(s for s in shape if s != 1)
 
 
+def _prod(shape):
+    return int(math.prod(int(v) for v in shape))
+
+
+def _np(x):
+    """np.asarray that never raises: None for ragged / object-valued results."""
+    try:
+        a = np.asarray(x)
+    except Exception:  # noqa
+        return None
+    if a.dtype == object:
+        return None
+    return a
+
+
+def _fit(x, shape):
+    """x as an array of the given shape if it has exactly that many entries (singleton axes may differ), else None."""
+    a = _np(x)
+    shape = tuple(shape)
+    if a is None or a.size != _prod(shape):
+        return None
+    return a.reshape(shape)
+
+
+def _sarr(S):
+    """The stored samples of a Samples object as one array with the sample index last (None if impossible)."""
+    s = getattr(S, "samples", None)
+    if isinstance(s, list):
+        try:
+            return np.stack([np.asarray(x, dtype=float) for x in s], axis=-1)
+        except Exception:  # noqa
+            return None
+    return _np(s)
+
+
+def _eq(a, want, tol):
+    """a is an array of exactly the shape of want holding the same numbers."""
+    return a is not None and a.shape == want.shape and close(a, want, tol)
+
+
+def _shp(x):
+    a = _np(x)
+    return None if a is None else a.shape
+
+
 class Ctx:
     """Per-cell bookkeeping: component name, facet string, and de-duplicated failures."""
 
@@ -117,7 +187,7 @@ class Ctx:
 
     def fail(self, op, what, msg, **detail):
         sig = "C13|%s|%s|%s" % (self.comp, op, what if not self.facet else "%s,%s" % (what, self.facet))
-        if what == "shape-singleton-squeezed" or (what == "raises" and getattr(self, "squeezed", False)):
+        if what == "shape-singleton-squeezed" or (what.split(",")[0] == "raises" and getattr(self, "squeezed", False)):
             # one defect (maps squeeze away genuine length-1 axes) whatever map shows it and whatever downstream
             # conversion then refuses the wrongly shaped array
             sig = "C13|%s|singleton-axis|squeezed" % self.comp
@@ -141,6 +211,7 @@ class Ctx:
                       % (op, " (batch)" if batch else "", got, want))
         else:
             self.fail(op, "shape", "%s produced shape %s, geometry reports %s" % (op, got, want))
+            self.map_broken = True
         return False
 
 
@@ -156,27 +227,96 @@ def _batch(dim, k, ncol):
     return np.column_stack([refs.dyadic_vec(dim, k + 1 + 2 * j, scale=0.5) for j in range(ncol)])
 
 
-def _call(res, f, *a):
+def _ivec(dim, k):
+    """Generic integer-VALUED vector (no zero entry): exactly representable in every tested dtype."""
+    return np.rint(refs.dyadic_vec(dim, k + 2, scale=1.0))
+
+
+def _ipos(dim, k):
+    """Generic vector of positive integers (admissible function values also below a log / exp map)."""
+    return np.abs(_ivec(dim, k + 1)) + 1.0
+
+
+def _call(res, f, *a, **kw):
     """Run a library map; returns (ok, value-or-exception)."""
     res.transitions += 1
     try:
-        return True, f(*a)
+        return True, f(*a, **kw)
     except Exception as e:  # noqa
         return False, e
+
+
+# representations of one and the same parameter / function / sample array -------------------------------
+REPS = ("int64", "int32", "float32", "strided", "list")
+REP_CLASS = {"int64": "integer", "int32": "integer", "float32": "float32", "strided": "strided", "list": "list"}
+REP_TOL = {"float32": 1e-5}      # single-precision arithmetic inside the maps is legitimate for float32 input
+
+
+def _rep(x, rep):
+    """The (integer-valued) float64 array x in another representation holding exactly the same numbers."""
+    x = np.asarray(x, dtype=float)
+    if rep == "float64":
+        return x.copy()
+    if rep == "int64":
+        return x.astype(np.int64)
+    if rep == "int32":
+        return x.astype(np.int32)
+    if rep == "float32":
+        return x.astype(np.float32)
+    if rep == "strided":          # non-contiguous view (vector) / Fortran-ordered buffer (matrix, stack)
+        if x.ndim == 1:
+            buf = np.full(2 * x.size, 99.0)
+            buf[::2] = x
+            return buf[::2]
+        return np.asfortranarray(x.copy())
+    if rep == "list":
+        return x.astype(int).tolist()
+    raise ValueError(rep)
+
+
+def _same_numbers(xr, x):
+    a = _np(xr)
+    return a is not None and a.shape == np.shape(x) and np.array_equal(a.astype(float), x)
+
+
+def _vec_refs(fshape, ref_fun2vec):
+    """(ref_f2v, ref_v2f) of the geometry: identity for 1-D function values, else derived from the given
+    reference fun2vec (a permutation of the entries) - or (None, None) when there is no reference."""
+    fshape = tuple(fshape)
+    if ref_fun2vec is None and len(fshape) == 1:
+        return (lambda f: np.array(f, float)), (lambda v: np.array(v, float))
+    if ref_fun2vec is None:
+        return None, None
+    fd = _prod(fshape)
+    perm = np.rint(ref_fun2vec(np.arange(fd, dtype=float).reshape(fshape))).astype(int)   # v[j] = f.flat[perm[j]]
+
+    def v2f(v):
+        out = np.zeros(fd)
+        for j in range(fd):
+            out[perm[j]] = v[j]
+        return out.reshape(fshape)
+    return (lambda f: np.array(ref_fun2vec(np.asarray(f, float)), float)), v2f
 
 
 # ----------------------------------------------------------------------------------------
 # generic relations valid for every geometry
 # ----------------------------------------------------------------------------------------
-def generic(cx, g, k, nv, inverse=True, ref_par2fun=None, has_vec=True, samples=True):
-    """inverse: fun2par offered and expected to invert par2fun.  ref_par2fun(p)->array: reference."""
+def generic(cx, g, k, nv, inverse=True, ref_par2fun=None, has_vec=True, samples=True, ref_fun2vec=None, full=True):
+    """inverse: fun2par offered and expected to invert par2fun.  ref_par2fun(p)->array: reference of par2fun.
+    ref_fun2vec(f)->vector: reference of the vectorised-function map (identity when function values are 1-D).
+    full=False (step expansions on all but the canonical grids, where the grid offset / length facet cannot interact
+    with the added facets): no representation facet, vector maps only on par2fun outputs, CUQIarray words <= 2."""
     res = cx.res
-    pd = g.par_dim
-    fshape = tuple(g.fun_shape)
+    ok, dims = _call(res, lambda: (g.par_dim, tuple(g.fun_shape), g.fun_dim, tuple(g.par_shape)))
+    if not ok:
+        cx.fail("dims", "raises", "the geometry cannot report its shapes: %r" % (dims,))
+        return None
+    pd, fshape, fdim, pshape = dims
     cx.res.evaluations += 1
-    if tuple(g.par_shape) != (pd,) or g.fun_dim != int(np.prod(fshape)):
+    if pshape != (pd,) or fdim != _prod(fshape):
         cx.fail("dims", "inconsistent", "par_shape %s / par_dim %s / fun_shape %s / fun_dim %s are inconsistent"
-                % (g.par_shape, pd, fshape, g.fun_dim))
+                % (pshape, pd, fshape, fdim))
+        return None
     # ---- single vectors -----------------------------------------------------------------
     F = []
     for p in _pvecs(pd, k, nv):
@@ -184,8 +324,13 @@ def generic(cx, g, k, nv, inverse=True, ref_par2fun=None, has_vec=True, samples=
         if not ok:
             cx.fail("par2fun", "raises", "par2fun raised on a valid parameter vector: %r" % (f,))
             return None
-        f = np.asarray(f)
+        f = _np(f)
+        if f is None:
+            cx.fail("par2fun", "shape", "par2fun did not return an array of numbers")
+            return None
         cx.shape("par2fun", f.shape, fshape)
+        if f.size != fdim:
+            return None
         if ref_par2fun is not None:
             r = ref_par2fun(p)
             res.evaluations += 1
@@ -200,7 +345,10 @@ def generic(cx, g, k, nv, inverse=True, ref_par2fun=None, has_vec=True, samples=
                 cx.fail("fun2par", "raises", "fun2par raised on the function values the geometry reports for "
                         "par2fun(p) (shape %s): %r" % (fshape, q))
                 continue
-            q = np.asarray(q)
+            q = _np(q)
+            if q is None:
+                cx.fail("fun2par", "shape", "fun2par did not return an array of numbers")
+                continue
             cx.shape("fun2par", q.shape, (pd,))
             res.evaluations += 1
             if q.size != pd or not close(q.reshape(pd), p, 1e-9):
@@ -209,60 +357,169 @@ def generic(cx, g, k, nv, inverse=True, ref_par2fun=None, has_vec=True, samples=
     res.outcomes.add("%s:par%s->fun%s" % (cx.comp, (pd,), F[-1].shape))
     # ---- vector form --------------------------------------------------------------------
     vshape = None
+    ref_f2v, ref_v2f = _vec_refs(fshape, ref_fun2vec)
     if has_vec:
-        ok, vshape = _call(res, lambda: g.funvec_shape)
-        if not ok:
-            res.refused += 1
-            res.outcomes.add("%s:funvec-refused" % cx.comp)
-            vshape = None
-        else:
-            vshape = tuple(vshape)
-            if g.funvec_dim != int(np.prod(vshape)):
-                cx.fail("dims", "funvec", "funvec_dim %s != prod(funvec_shape %s)" % (g.funvec_dim, vshape))
-            for f in F[-(nv + 1):]:
-                fin = f if f.shape == fshape else f.reshape(fshape)
-                ok, v = _call(res, g.fun2vec, fin.copy())
-                if not ok:
-                    cx.fail("fun2vec", "raises", "fun2vec raised although funvec_shape is reported: %r" % (v,))
-                    break
-                v = np.asarray(v)
-                cx.shape("fun2vec", v.shape, vshape)
-                ok, f2 = _call(res, g.vec2fun, v.copy())
-                if not ok:
-                    cx.fail("vec2fun", "raises", "vec2fun raised on fun2vec output: %r" % (f2,))
-                    break
-                f2 = np.asarray(f2)
-                cx.shape("vec2fun", f2.shape, fshape)
-                res.evaluations += 1
-                if f2.size != fin.size or not close(f2.reshape(fshape), fin, 1e-12):
-                    cx.fail("vec2fun", "not-inverse-of-fun2vec", "vec2fun(fun2vec(f)) != f", f=fin, back=f2)
-                    cx.map_broken = True
+        vshape = _vec_check(cx, g, k, nv, F, pd, fshape, ref_f2v, ref_v2f, full)
     # ---- batches: matrices of column vectors ---------------------------------------------
     for ncol in (1, 2, 3):
         B = _batch(pd, k, ncol)
-        cols = [np.asarray(g.par2fun(B[:, j].copy())) for j in range(ncol)]
-        res.transitions += ncol
+        cols = []
+        for j in range(ncol):
+            ok, c = _call(res, g.par2fun, B[:, j].copy())
+            c = _fit(c, fshape) if ok else None
+            if c is None:
+                cx.fail("par2fun", "raises", "par2fun raised / returned a wrong size on a valid parameter vector: %r" % (c,))
+                return F
+            cols.append(c)
         _batch_check(cx, g.par2fun, "par2fun", B, cols, fshape, ncol)
         if len(fshape) == 1 and inverse:
-            FB = np.stack([c.reshape(fshape) for c in cols], axis=-1)
+            FB = np.stack(cols, axis=-1)
             pc = []
             for j in range(ncol):
                 ok, q = _call(res, g.fun2par, FB[:, j].copy())
-                if not ok:
+                q = _fit(q, (pd,)) if ok else None
+                if q is None:
                     pc = None
                     break
-                pc.append(np.asarray(q))
+                pc.append(q)
             if pc is not None:
                 _batch_check(cx, g.fun2par, "fun2par", FB, pc, (pd,), ncol)
         elif inverse:
             # stack of multi-dimensional function values: executed, recorded, not judged (see ASSUMPTIONS)
-            FB = np.stack([c.reshape(fshape) for c in cols], axis=-1)
+            FB = np.stack(cols, axis=-1)
             ok, out = _call(res, g.fun2par, FB.copy())
-            res.outcomes.add("%s:fun2par-stack%d:%s" % (cx.comp, ncol, np.asarray(out).shape if ok else "raises"))
+            res.outcomes.add("%s:fun2par-stack%d:%s" % (cx.comp, ncol, _shp(out) if ok else "raises"))
+    # ---- representation of the inputs (dtype / memory layout / list) -------------------------
+    if full:
+        _rep_check(cx, g, k, inverse, ref_par2fun, pd, fshape, vshape, ref_f2v, samples)
     # ---- Samples / CUQIarray conversions ---------------------------------------------------
     if samples:
-        _samples_check(cx, g, k, inverse, vshape)
+        _samples_check(cx, g, k, inverse, pd, fshape, vshape, ref_f2v)
+        _array_check(cx, g, k, inverse, pd, fshape, DEPTH if full else 2)
     return F
+
+
+def _vec_check(cx, g, k, nv, F, pd, fshape, ref_f2v, ref_v2f, full=True):
+    """The vectorised-function maps called directly: on the complete basis of the vector space + generic vectors,
+    on the reference function values, on par2fun outputs, and on matrices of columns.  Returns funvec_shape or None."""
+    res = cx.res
+    fd = _prod(fshape)
+    ok, vs = _call(res, lambda: (tuple(g.funvec_shape), g.funvec_dim))
+    if not ok:
+        # a geometry without fun2vec (Continuous2D) may refuse the vector form
+        res.refused += 1
+        res.outcomes.add("%s:funvec-refused" % cx.comp)
+        if ref_f2v is not None:
+            cx.fail("funvec_shape", "raises", "funvec_shape raised although the geometry has a vector form: %r" % (vs,))
+        return None
+    vshape, vdim = vs
+    res.evaluations += 1
+    if vdim != _prod(vshape) or len(vshape) != 1:
+        cx.fail("dims", "funvec", "funvec_dim %s != prod(funvec_shape %s) / not one-dimensional" % (vdim, vshape))
+        return None
+    res.state("vec-form")
+    # (a) direct calls on the complete vector basis + generic vectors, each map against the reference
+    if ref_f2v is not None and full:
+        if vdim != fd:
+            cx.fail("dims", "funvec", "funvec_dim %s but the function has %d values" % (vdim, fd))
+            return None
+        for v in _pvecs(vdim, k + 1, nv):
+            fr = ref_v2f(v)
+            ok, f = _call(res, g.vec2fun, v.copy())
+            if not ok:
+                cx.fail("vec2fun", "raises", "vec2fun raised on a vector of the reported funvec_shape %s: %r" % (vshape, f))
+                break
+            sh = _shp(f)
+            if sh is None:
+                cx.fail("vec2fun", "shape", "vec2fun did not return an array of numbers")
+                break
+            if not cx.shape("vec2fun", sh, fshape) and cx.map_broken:
+                break
+            ff = _fit(f, fshape)
+            res.evaluations += 1
+            if ff is None or not close(ff, fr, 1e-12):
+                if ff is not None or _sq(sh) != _sq(fshape):
+                    cx.fail("vec2fun", "values", "vec2fun(v) differs from the reference function values", v=v, impl=_np(f), ref=fr)
+                cx.map_broken = True
+                break
+            ok, v2 = _call(res, g.fun2vec, fr.copy())
+            if not ok:
+                cx.fail("fun2vec", "raises", "fun2vec raised on function values of the reported fun_shape %s: %r" % (fshape, v2))
+                break
+            sh = _shp(v2)
+            if sh is None:
+                cx.fail("fun2vec", "shape", "fun2vec did not return an array of numbers")
+                break
+            if not cx.shape("fun2vec", sh, vshape) and cx.map_broken:
+                break
+            vv = _fit(v2, vshape)
+            res.evaluations += 1
+            if vv is None or not close(vv, v, 1e-12):
+                if vv is not None or _sq(sh) != _sq(vshape):
+                    cx.fail("fun2vec", "values", "fun2vec(f) differs from the reference vector", f=fr, impl=_np(v2), ref=v)
+                cx.map_broken = True
+                break
+    if cx.map_broken:
+        res.count("derived-relation-skipped-after-map-failure")
+        return vshape
+    # (b) on par2fun outputs: fun2vec then vec2fun returns the function
+    for f in F[-(nv + 1):]:
+        fin = f if f.shape == fshape else f.reshape(fshape)
+        ok, v = _call(res, g.fun2vec, fin.copy())
+        if not ok:
+            cx.fail("fun2vec", "raises", "fun2vec raised although funvec_shape is reported: %r" % (v,))
+            break
+        sh = _shp(v)
+        if sh is None:
+            cx.fail("fun2vec", "shape", "fun2vec did not return an array of numbers")
+            break
+        cx.shape("fun2vec", sh, vshape)
+        v = _fit(v, vshape)
+        if v is None:
+            break
+        ok, f2 = _call(res, g.vec2fun, v.copy())
+        if not ok:
+            cx.fail("vec2fun", "raises", "vec2fun raised on fun2vec output: %r" % (f2,))
+            break
+        sh = _shp(f2)
+        if sh is None:
+            cx.fail("vec2fun", "shape", "vec2fun did not return an array of numbers")
+            break
+        cx.shape("vec2fun", sh, fshape)
+        f2 = _fit(f2, fshape)
+        res.evaluations += 1
+        if f2 is None or not close(f2, fin, 1e-12):
+            if f2 is not None or _sq(sh) != _sq(fshape):
+                cx.fail("vec2fun", "not-inverse-of-fun2vec", "vec2fun(fun2vec(f)) != f", f=fin, back=f2)
+            cx.map_broken = True
+    # (c) matrices of column vectors through the vector maps
+    for ncol in ((1, 2, 3) if full else ()):
+        VB = _batch(vdim, k + 2, ncol)
+        cols = []
+        for j in range(ncol):
+            ok, c = _call(res, g.vec2fun, VB[:, j].copy())
+            c = _fit(c, fshape) if ok else None
+            if c is None:
+                break
+            cols.append(c)
+        if len(cols) < ncol:
+            break          # reported above
+        _batch_check(cx, g.vec2fun, "vec2fun", VB, cols, fshape, ncol)
+        FB = np.stack(cols, axis=-1)
+        if len(fshape) == 1:
+            vc = []
+            for j in range(ncol):
+                ok, c = _call(res, g.fun2vec, FB[:, j].copy())
+                c = _fit(c, vshape) if ok else None
+                if c is None:
+                    break
+                vc.append(c)
+            if len(vc) == ncol:
+                _batch_check(cx, g.fun2vec, "fun2vec", FB, vc, vshape, ncol)
+        else:
+            ok, out = _call(res, g.fun2vec, FB.copy())
+            res.outcomes.add("%s:fun2vec-stack%d:%s" % (cx.comp, ncol, _shp(out) if ok else "raises"))
+    return vshape
 
 
 def _batch_check(cx, fn, op, B, cols, single_shape, ncol):
@@ -273,10 +530,13 @@ def _batch_check(cx, fn, op, B, cols, single_shape, ncol):
         res.count("batch-refused")
         res.outcomes.add("%s:%s-batch%d:raises" % (cx.comp, op, ncol))
         return
-    out = np.asarray(out)
+    out = _np(out)
     single_shape = tuple(single_shape)
     want = np.stack([np.asarray(c).reshape(single_shape) for c in cols], axis=-1)
     res.evaluations += 1
+    if out is None:
+        cx.fail(op + "-batch", "shape", "%s on a matrix of %d columns did not return an array of numbers" % (op, ncol))
+        return
     shape_ok = out.shape == want.shape or (ncol == 1 and out.shape == single_shape)
     if ncol == 1 and out.shape == single_shape and want.shape != single_shape:
         res.count("one-column-batch-squeezed")
@@ -293,115 +553,370 @@ def _batch_check(cx, fn, op, B, cols, single_shape, ncol):
     res.outcomes.add("%s:%s-batch%d:%s" % (cx.comp, op, ncol, out.shape))
 
 
-def _samples_check(cx, g, k, inverse, vshape):
+# ----------------------------------------------------------------------------------------
+# representation facet: the same numbers as float64 / integer dtypes / float32 / strided / list
+# ----------------------------------------------------------------------------------------
+def _rep_check(cx, g, k, inverse, ref_par2fun, pd, fshape, vshape, ref_f2v, with_samples):
+    """Every map, Samples conversion and CUQIarray conversion applied to integer-VALUED inputs held in each
+    representation must return what it returns for the float64 copy (reference / per-sample map on float64)."""
     import cuqi
     res = cx.res
-    pd, fshape = g.par_dim, tuple(g.fun_shape)
+    if cx.map_broken:
+        res.count("derived-relation-skipped-after-map-failure")
+        return
+    fd = _prod(fshape)
+    Ns = 2
+    PZ = np.column_stack([_ivec(pd, k + j) for j in range(Ns)])
+    FZ = np.stack([_ipos(fd, k + j).reshape(fshape) for j in range(Ns)], axis=-1)
+
+    def base(fn, x, shape):
+        ok, y = _call(res, fn, np.array(x, float))
+        return _fit(y, shape) if ok else None
+
+    # float64 baselines (par2fun: the reference itself where there is one)
+    Fb, Qb, Vb = [], [], []
+    for j in range(Ns):
+        f = base(g.par2fun, PZ[:, j], fshape)
+        if f is None:
+            cx.fail("par2fun", "raises", "par2fun raised / returned a wrong size on an integer-valued float64 vector")
+            return
+        if ref_par2fun is not None:
+            r = np.asarray(ref_par2fun(PZ[:, j]), float)
+            res.evaluations += 1
+            if not close(f, r.reshape(fshape), 1e-9):
+                cx.fail("par2fun", "values", "par2fun differs from the documented map", p=PZ[:, j], impl=f, ref=r)
+                return
+            f = r.reshape(fshape)
+        Fb.append(f)
+        if inverse:
+            q = base(g.fun2par, FZ[..., j], (pd,))
+            if q is None:
+                cx.fail("fun2par", "raises", "fun2par raised / returned a wrong size on positive integer-valued float64 "
+                        "function values of the reported shape %s" % (fshape,))
+                return
+            Qb.append(q)
+        if vshape is not None:
+            v = ref_f2v(FZ[..., j]) if ref_f2v is not None else base(g.fun2vec, FZ[..., j], vshape)
+            if v is None:
+                vshape = None
+            else:
+                Vb.append(np.asarray(v, float).reshape(vshape))
+    wantF = np.stack(Fb, axis=-1)
+    jobs = [("par2fun", g.par2fun, PZ[:, 0], Fb[0], fshape, False),
+            ("par2fun-batch", g.par2fun, PZ, wantF, fshape + (Ns,), True)]
+    if inverse:
+        jobs.append(("fun2par", g.fun2par, FZ[..., 0], Qb[0], (pd,), False))
+    if vshape is not None:
+        jobs.append(("fun2vec", g.fun2vec, FZ[..., 0], Vb[0], vshape, False))
+        w = _ivec(_prod(vshape), k + 1)
+        wb = base(g.vec2fun, w, fshape)
+        if wb is not None:
+            jobs.append(("vec2fun", g.vec2fun, w, wb, fshape, False))
+    is1d = len(fshape) == 1
+    bad = set()        # operations that already fail on the float64 control: reported once, without input facet
+
+    def report(key, op, kind, rep, msg, extra="", **detail):
+        if rep == "float64":
+            bad.add(key)
+            cx.fail(op, kind + extra, msg, **detail)
+        else:
+            cx.fail(op, "%s,input=%s%s" % (kind, REP_CLASS[rep], extra), msg, **detail)
+
+    for rep in ("float64",) + REPS:
+        tol = REP_TOL.get(rep, 1e-9)
+        may_refuse = rep == "list"        # the maps are documented for arrays
+        res.state("rep-" + rep)
+        # ---- the maps themselves ---------------------------------------------------------------
+        for op, fn, x, want, shape, batch in jobs:
+            if op in bad:
+                continue
+            xr = _rep(x, rep)
+            ok, out = _call(res, fn, xr)
+            if not ok:
+                if may_refuse or batch:
+                    res.refused += 1
+                    continue
+                report(op, op, "raises", rep, "%s raised on %s input holding numbers it accepts as float64: %r" % (op, rep, out))
+                continue
+            o = _fit(out, shape)
+            res.evaluations += 1
+            if o is None or not close(o, want, tol):
+                report(op, op, "values", rep, "%s of %s input differs from %s of the float64 copy (returned shape %s)"
+                       % (op, rep, op, _shp(out)), x=x, impl=_np(out), ref=want)
+            elif not _same_numbers(xr, x):
+                report(op, op, "source-altered", rep, "%s changed its %s input" % (op, rep))
+            else:
+                res.outcomes.add("%s:%s:%s->%s" % (cx.comp, op, rep, getattr(_np(out), "dtype", None)))
+        # ---- CUQIarray ----------------------------------------------------------------------------
+        if "A.funvals" not in bad:
+            ok, fa = _call(res, lambda: cuqi.array.CUQIarray(_rep(PZ[:, 0], rep), geometry=g).funvals)
+            if not ok:
+                if may_refuse:
+                    res.refused += 1
+                else:
+                    report("A.funvals", "CUQIarray.funvals", "raises", rep, "CUQIarray.funvals raised on %s data: %r" % (rep, fa))
+            else:
+                o = _fit(fa, fshape)
+                res.evaluations += 1
+                if o is None or not close(o, Fb[0], tol):
+                    report("A.funvals", "CUQIarray.funvals", "values", rep, "CUQIarray.funvals of %s data differs from par2fun "
+                           "of the float64 copy" % rep, impl=_np(fa), ref=Fb[0])
+                elif inverse and "A.roundtrip" not in bad:
+                    ok, pa = _call(res, lambda: fa.parameters)
+                    o = _fit(pa, (pd,)) if ok else None
+                    res.evaluations += 1
+                    if o is None or not close(o, PZ[:, 0], max(tol, 1e-9)):
+                        report("A.roundtrip", "CUQIarray.parameters", "roundtrip" if ok else "raises", rep,
+                               "CUQIarray(%s data).funvals.parameters does not return the parameters: %r" % (rep, pa))
+        if inverse and "A.parameters" not in bad:
+            ok, pa = _call(res, lambda: cuqi.array.CUQIarray(_rep(FZ[..., 0], rep), is_par=False, geometry=g).parameters)
+            if not ok:
+                if may_refuse:
+                    res.refused += 1
+                else:
+                    report("A.parameters", "CUQIarray.parameters", "raises", rep, "CUQIarray.parameters raised on %s function "
+                           "values: %r" % (rep, pa), extra=",from=fun")
+            else:
+                o = _fit(pa, (pd,))
+                res.evaluations += 1
+                if o is None or not close(o, Qb[0], tol):
+                    report("A.parameters", "CUQIarray.parameters", "values", rep, "CUQIarray.parameters of %s function values "
+                           "differs from fun2par of the float64 copy" % rep, extra=",from=fun", impl=_np(pa), ref=Qb[0])
+        if not with_samples:
+            continue
+        # ---- Samples holding parameters ----------------------------------------------------------
+        if "S.funvals" not in bad:
+            X = [PZ[:, j].copy() for j in range(Ns)] if rep == "list" else _rep(PZ, rep)
+            ok, Fs = _call(res, lambda: cuqi.samples.Samples(X, geometry=g).funvals)
+            if not ok:
+                if may_refuse:
+                    res.refused += 1
+                else:
+                    report("S.funvals", "Samples.funvals", "raises", rep, "Samples.funvals raised on a %s sample array: %r" % (rep, Fs))
+            else:
+                o = _sarr(Fs)
+                res.evaluations += 1
+                if not _eq(o, wantF, tol):
+                    report("S.funvals", "Samples.funvals", "values", rep, "Samples.funvals of a %s sample array differs from "
+                           "the per-sample par2fun of the float64 copy" % rep, impl=o, ref=wantF)
+                else:
+                    res.outcomes.add("%s:Samples.funvals:%s->%s" % (cx.comp, rep, getattr(_np(Fs.samples), "dtype", None)))
+                    if inverse and "S.roundtrip" not in bad:
+                        ok, Ps = _call(res, lambda: Fs.parameters)
+                        o = _sarr(Ps) if ok else None
+                        res.evaluations += 1
+                        if not _eq(o, PZ, max(tol, 1e-9)):
+                            report("S.roundtrip", "Samples.parameters", "roundtrip" if ok else "raises", rep,
+                                   "Samples(%s array).funvals.parameters does not return the parameter samples: %r" % (rep, Ps),
+                                   ref=PZ)
+                if rep != "list" and not _same_numbers(X, PZ):
+                    report("S.source", "Samples", "source-altered", rep, "conversion changed the %s source samples" % rep)
+        # ---- Samples holding function values ---------------------------------------------------------
+        Y = [FZ[..., j].copy() for j in range(Ns)] if rep == "list" else _rep(FZ, rep)
+        ok, Sf = _call(res, lambda: cuqi.samples.Samples(Y, geometry=g, is_par=False, is_vec=is1d))
+        if not ok:
+            if "S.construct" not in bad:
+                report("S.construct", "Samples", "raises", rep, "Samples refused function-value samples: %r" % (Sf,))
+            continue
+        conv = []
+        if inverse:
+            conv.append(("parameters", np.stack(Qb, axis=-1)))
+        if vshape is not None and len(Vb) == Ns:
+            conv.append(("vector", np.stack(Vb, axis=-1)))
+        conv.append(("funvals", FZ))
+        for name, want in conv:
+            key = "Sf." + name
+            if key in bad:
+                continue
+            ok, R = _call(res, lambda: getattr(Sf, name))
+            if not ok:
+                if may_refuse:
+                    res.refused += 1
+                else:
+                    report(key, "Samples." + name, "raises", rep, "Samples.%s raised on %s function-value samples: %r"
+                           % (name, rep, R), extra=",from=fun")
+                continue
+            o = _sarr(R)
+            res.evaluations += 1
+            if not _eq(o, want, tol):
+                report(key, "Samples." + name, "values", rep, "Samples.%s of %s function-value samples differs from the "
+                       "per-sample map of the float64 copy" % (name, rep), extra=",from=fun", impl=o, ref=want)
+
+
+# ----------------------------------------------------------------------------------------
+# Samples / CUQIarray: all conversion words up to length 3
+# ----------------------------------------------------------------------------------------
+OPS = ("funvals", "vector", "parameters")
+DEPTH = 3
+
+
+def _samples_check(cx, g, k, inverse, pd, fshape, vshape, ref_f2v):
+    """Reference model: a sample collection is in state par / fun (function values, not a matrix of vectors) / fv
+    (function values as a matrix of column vectors).  Every word of <= DEPTH conversions is applied to parameter
+    samples (sub-trees of a conversion that returns the object itself are already covered and pruned) and after
+    every step the flags and the stored array are compared with the per-sample maps."""
+    import cuqi
+    res = cx.res
     Ns = 3
+    is1d = len(fshape) == 1
     P = _batch(pd, k + 1, Ns)
     P0 = P.copy()
-    S = cuqi.samples.Samples(P, geometry=g)
-    percol = [np.asarray(g.par2fun(P0[:, j].copy())).reshape(fshape) for j in range(Ns)]
-    res.transitions += Ns
-    ok, Fs = _call(res, lambda: S.funvals)
+    ok, S = _call(res, lambda: cuqi.samples.Samples(P, geometry=g))
     if not ok:
-        cx.fail("Samples.funvals", "raises", "Samples.funvals raised: %r" % (Fs,))
+        cx.fail("Samples", "raises", "Samples refused a parameter sample array: %r" % (S,))
         return
-    res.state("samples-fun")
+    percol = []
+    for j in range(Ns):
+        ok, f = _call(res, g.par2fun, P0[:, j].copy())
+        f = _fit(f, fshape) if ok else None
+        if f is None:
+            return            # reported by the map-level checks
+        percol.append(np.asarray(f, float))
     want = np.stack(percol, axis=-1)
-    res.evaluations += 1
-    if Fs.is_par or Fs.geometry is not g:
-        cx.fail("Samples.funvals", "flags", "funvals samples have is_par=%s / changed geometry" % Fs.is_par)
-    if np.asarray(Fs.samples).shape != want.shape or not close(Fs.samples, want, 1e-12):
-        cx.fail("Samples.funvals", "values", "Samples.funvals differs from the per-sample par2fun",
-                impl=np.asarray(Fs.samples), ref=want)
-        return
-    if Fs.funvals is not Fs and not (Fs.is_vec):
-        cx.fail("Samples.funvals", "not-idempotent", "funvals of function-value samples is not the object itself")
-    cur = Fs
-    # vector form
-    ok, Vs = _call(res, lambda: Fs.vector)
-    if not ok:
-        res.refused += 1
-        res.outcomes.add("%s:Samples.vector-refused" % cx.comp)
-        if vshape is not None:
-            cx.fail("Samples.vector", "raises", "Samples.vector raised although the geometry offers fun2vec: %r" % (Vs,))
-    else:
-        res.state("samples-vec")
-        res.evaluations += 1
-        if not Vs.is_vec or Vs.is_par or Vs.geometry is not g:
-            cx.fail("Samples.vector", "flags", "vector samples: is_vec=%s is_par=%s" % (Vs.is_vec, Vs.is_par))
-        if vshape is not None:
-            wantv = np.stack([np.asarray(g.fun2vec(f.copy())).reshape(vshape) for f in percol], axis=-1)
-            # the same conversion after the function-value samples went through a (trivial and a real) burn-in/thinning:
-            # the representation must survive the copy made there
-            for (nb, nt) in ((0, 1), (1, 2)):
-                okb, Vb = _call(res, lambda: Fs.burnthin(nb, nt).vector)
-                if okb:
-                    res.evaluations += 1
-                    wb = wantv[..., nb::nt]
-                    if np.asarray(Vb.samples).shape != wb.shape or not close(Vb.samples, wb, 1e-12):
-                        cx.fail("Samples.vector", "values-after-burnthin", "funvals.burnthin(%d,%d).vector differs from the "
-                                "per-sample fun2vec of the kept samples (shape %s, expected %s)" % (nb, nt, np.asarray(Vb.samples).shape, wb.shape))
-                        break
-            if np.asarray(Vs.samples).shape != wantv.shape or not close(Vs.samples, wantv, 1e-12):
-                cx.fail("Samples.vector", "values", "Samples.vector differs from the per-sample fun2vec",
-                        impl=np.asarray(Vs.samples), ref=wantv)
+    wantv = None
+    if vshape is not None:
+        vs = []
+        for f in percol:
+            if ref_f2v is not None:
+                v = ref_f2v(f)
             else:
-                # back to function values: lossless
-                ok, F2 = _call(res, lambda: Vs.funvals)
-                if ok:
-                    res.evaluations += 1
-                    if cx.map_broken:
-                        res.count("derived-relation-skipped-after-map-failure")
-                    elif np.asarray(F2.samples).shape != want.shape or not close(F2.samples, want, 1e-12):
-                        cx.fail("Samples.vector", "funvals-of-vector-lossy", "vector -> funvals does not return the function values")
-                cur = Vs
-    if inverse:
-        for name, src in (("funvals", Fs), ("vector", cur)):
-            ok, Ps = _call(res, lambda: src.parameters)
+                ok, v = _call(res, g.fun2vec, f.copy())
+                v = _fit(v, vshape) if ok else None
+            if v is None:
+                vs = None
+                break
+            vs.append(np.asarray(v, float).reshape(vshape))
+        if vs is not None:
+            wantv = np.stack(vs, axis=-1)
+    fstate = "fv" if is1d else "fun"
+    VALUE = {"par": P0, "fun": want, "fv": want if is1d else wantv}
+    FLAGS = {"par": (True, True), "fun": (False, False), "fv": (False, True)}
+    TOL = {"par": 1e-9, "fun": 1e-12, "fv": 1e-12}
+
+    def model(state, op):
+        """(state after op, may the conversion be refused)"""
+        if op == "parameters":
+            return "par", not inverse
+        if op == "funvals":
+            return fstate, False
+        if state == "fun":
+            return "fv", vshape is None     # no fun2vec offered (Continuous2D): refusal allowed
+        return state, False
+
+    def judge(obj, src, state, new, op, sub, label):
+        """sub: slice of the sample axis kept by a preceding burnthin (None = all)."""
+        res.evaluations += 1
+        opname = "Samples." + op
+        if obj is src and new == state:
+            return True
+        ok, fl = _call(res, lambda: (obj.is_par, obj.is_vec, obj.geometry is g, _sarr(obj)))
+        if not ok:
+            cx.fail(opname, "flags", "%s: the result is not a Samples object: %r" % (label, fl))
+            return False
+        if (fl[0], fl[1]) != FLAGS[new] or not fl[2]:
+            cx.fail(opname, "flags,from=%s" % state, "%s gives is_par=%s is_vec=%s (expected %s) / geometry kept: %s"
+                    % (label, fl[0], fl[1], FLAGS[new], fl[2]))
+            return False
+        val = VALUE[new]
+        if val is None:
+            return True                      # vector form without a reference: nothing to compare with
+        if sub is not None:
+            val = val[..., sub]
+        if new == "par" and cx.map_broken:
+            res.count("derived-relation-skipped-after-map-failure")
+            return True
+        a = fl[3]
+        if a is None or a.shape != val.shape or not close(a, val, TOL[new]):
+            what = "values" if sub is None else "values-after-burnthin"
+            cx.fail(opname, "%s,from=%s" % (what, state), "%s differs from the per-sample %s of the kept samples (shape %s, expected %s)"
+                    % (label, {"par": "fun2par", "fun": "par2fun / vec2fun", "fv": "fun2vec"}[new],
+                       None if a is None else a.shape, val.shape), impl=a, ref=val)
+            return False
+        return True
+
+    def walk(obj, state, depth, label, sub=None):
+        res.state("samples-%s-d%d" % (state, depth))
+        if depth == DEPTH:
+            return
+        for op in OPS:
+            new, may_refuse = model(state, op)
+            ok, out = _call(res, lambda: getattr(obj, op))
+            lab = "%s.%s" % (label, op)
             if not ok:
-                cx.fail("Samples.parameters", "raises", "Samples.%s.parameters raised: %r" % (name, Ps))
+                res.refused += 1
+                res.outcomes.add("%s:Samples.%s-refused,from=%s" % (cx.comp, op, state))
+                if not may_refuse:
+                    cx.fail("Samples." + op, "raises,from=%s" % state, "%s raised: %r" % (lab, out))
                 continue
-            res.state("samples-par")
-            res.evaluations += 1
-            if not Ps.is_par or not Ps.is_vec or Ps.geometry is not g:
-                cx.fail("Samples.parameters", "flags", "parameter samples: is_par=%s is_vec=%s" % (Ps.is_par, Ps.is_vec))
-            if cx.map_broken:
-                res.count("derived-relation-skipped-after-map-failure")
-            elif np.asarray(Ps.samples).shape != P0.shape or not close(Ps.samples, P0, 1e-9):
-                cx.fail("Samples.parameters", "roundtrip", "Samples.%s.parameters does not return the parameter samples"
-                        % name, impl=np.asarray(Ps.samples), ref=P0)
+            if not judge(out, obj, state, new, op, sub, lab):
+                continue
+            if out is obj:
+                continue          # same object: its sub-tree is the one being explored
+            walk(out, new, depth + 1, lab, sub)
+            # the representation must survive the copy made by a (trivial and a real) burn-in / thinning
+            if depth == 0 and op == "funvals":
+                for (nb, nt) in ((0, 1), (1, 2)):
+                    okb, Bt = _call(res, lambda: out.burnthin(nb, nt))
+                    sl = slice(nb, None, nt)
+                    lb = "%s.burnthin(%d,%d)" % (lab, nb, nt)
+                    if okb and judge(Bt, None, new, new, "burnthin", sl, lb):
+                        walk(Bt, new, DEPTH - 1, lb, sl)
+
+    walk(S, "par", 0, "S")
+    res.evaluations += 1
     if not np.array_equal(P, P0) or S.samples is not P:
         cx.fail("Samples", "source-altered", "conversion changed the source samples")
-    # CUQIarray
-    p = P0[:, 0].copy()
-    a = cuqi.array.CUQIarray(p.copy(), geometry=g)
-    ok, fa = _call(res, lambda: a.funvals)
-    if not ok:
-        cx.fail("CUQIarray.funvals", "raises", "CUQIarray.funvals raised: %r" % (fa,))
+
+
+def _array_check(cx, g, k, inverse, pd, fshape, maxdepth):
+    """CUQIarray: every word of <= DEPTH conversions over {funvals, parameters} from a parameter array."""
+    import cuqi
+    res = cx.res
+    p = _batch(pd, k + 1, 1)[:, 0].copy()
+    ok, f = _call(res, g.par2fun, p.copy())
+    f = _fit(f, fshape) if ok else None
+    if f is None:
         return
-    res.state("array-fun")
-    res.evaluations += 1
-    if getattr(fa, "is_par", None) is not False or fa.geometry is not g:
-        cx.fail("CUQIarray.funvals", "flags", "funvals array has is_par=%r" % getattr(fa, "is_par", None))
-    if np.asarray(fa).size != percol[0].size or not close(np.asarray(fa).reshape(fshape), percol[0], 1e-12):
-        cx.fail("CUQIarray.funvals", "values", "CUQIarray.funvals differs from par2fun", impl=np.asarray(fa), ref=percol[0])
-    if inverse:
-        ok, pa = _call(res, lambda: fa.parameters)
-        if not ok:
-            cx.fail("CUQIarray.parameters", "raises", "CUQIarray.funvals.parameters raised: %r" % (pa,))
+    ok, a = _call(res, lambda: cuqi.array.CUQIarray(p.copy(), geometry=g))
+    if not ok:
+        cx.fail("CUQIarray", "raises", "CUQIarray refused a parameter vector: %r" % (a,))
+        return
+    VALUE = {"par": (p, (pd,), 1e-9), "fun": (np.asarray(f, float), fshape, 1e-12)}
+
+    def walk(obj, state, depth, label):
+        res.state("array-%s-d%d" % (state, depth))
+        if depth == maxdepth:
             return
-        res.state("array-par")
-        res.evaluations += 1
-        if getattr(pa, "is_par", None) is not True or pa.geometry is not g:
-            cx.fail("CUQIarray.parameters", "flags", "parameter array has is_par=%r" % getattr(pa, "is_par", None))
-        if cx.map_broken:
-            res.count("derived-relation-skipped-after-map-failure")
-        elif np.asarray(pa).size != pd or not close(np.asarray(pa).reshape(pd), p, 1e-9):
-            cx.fail("CUQIarray.parameters", "roundtrip", "CUQIarray funvals -> parameters is lossy", impl=np.asarray(pa), ref=p)
-        if not np.array_equal(np.asarray(a), p):
-            cx.fail("CUQIarray", "source-altered", "conversion changed the source array")
+        for op in ("funvals", "parameters"):
+            new = "fun" if op == "funvals" else "par"
+            ok, out = _call(res, lambda: getattr(obj, op))
+            lab = "%s.%s" % (label, op)
+            opname = "CUQIarray." + op
+            if not ok:
+                if not (op == "parameters" and not inverse):
+                    cx.fail(opname, "raises,from=%s" % state, "%s raised: %r" % (lab, out))
+                continue
+            res.evaluations += 1
+            flag = getattr(out, "is_par", None)
+            if flag is not (new == "par") or getattr(out, "geometry", None) is not g:
+                cx.fail(opname, "flags,from=%s" % state, "%s has is_par=%r / geometry kept: %s"
+                        % (lab, flag, getattr(out, "geometry", None) is g))
+                continue
+            val, shape, tol = VALUE[new]
+            if new == "par" and cx.map_broken:
+                res.count("derived-relation-skipped-after-map-failure")
+            else:
+                o = _fit(out, shape)
+                if o is None or not close(o, val, tol):
+                    cx.fail(opname, "values,from=%s" % state, "%s differs from the %s of the source vector" %
+                            (lab, "function values" if new == "fun" else "parameters"), impl=_np(out), ref=val)
+                    continue
+            walk(out, new, depth + 1, lab)
+
+    walk(a, "par", 0, "a")
+    res.evaluations += 1
+    if not np.array_equal(np.asarray(a), p):
+        cx.fail("CUQIarray", "source-altered", "conversion changed the source array")
 
 
 # ----------------------------------------------------------------------------------------
@@ -440,12 +955,33 @@ def _grid(cell):
     return x0 + np.arange(N) * (L / (N - 1))
 
 
+def _iterate(res, g, q, n, N):
+    """par2fun(q), fun2par of it, par2fun again - or None when a map raises / returns a wrong size."""
+    ok, f1 = _call(res, g.par2fun, q.copy())
+    f1 = _fit(f1, (N,)) if ok else None
+    if f1 is None:
+        return None
+    f1 = f1.astype(float)
+    ok, q1 = _call(res, g.fun2par, f1.copy())
+    q1 = _fit(q1, (n,)) if ok else None
+    if q1 is None:
+        return None
+    q1 = q1.astype(float)
+    ok, f2 = _call(res, g.par2fun, q1.copy())
+    f2 = _fit(f2, (N,)) if ok else None
+    if f2 is None:
+        return None
+    return f1, q1, f2.astype(float)
+
+
 def eval_step(cell, res):
     from cuqi.geometry import StepExpansion
     N, n, k, nv = cell["N"], cell["n"], cell["cat"], cell["nv"]
     ideal, onb = step_oracle(N, n)
     assert sorted(set(ideal)) == list(range(n)), "harness self-check: documented partition has an empty step"
     grid = _grid(cell)
+    # canonical grids carrying the representation / vector-form / long-word facets (for all three projections)
+    full = cell["b"] == "int" or (cell["x0"], cell["L"]) == (0.1, 0.7)
     first = True
     for proj in PROJS:
         cx = Ctx(res, "StepExpansion")
@@ -456,7 +992,10 @@ def eval_step(cell, res):
             cx.fail("construct", "refused", "admissible regular grid (N=%d >= n_steps=%d) refused: %r" % (N, n, e))
             return
         res.state("step-" + proj)
-        fgrid = np.asarray(g.grid, float)
+        ok, fgrid = _call(res, lambda: np.asarray(g.grid, float))
+        if not ok or fgrid.shape != (N,):
+            cx.fail("grid", "raises", "the geometry does not report its %d-node grid: %r" % (N, fgrid))
+            return
         cx.shape("par_shape", g.par_shape, (n,))
         cx.shape("fun_shape", g.fun_shape, (N,))
         # ---- observed partition through par2fun(e_i) -----------------------------------------
@@ -466,11 +1005,11 @@ def eval_step(cell, res):
             if not ok:
                 cx.fail("par2fun", "raises", "par2fun(e_%d) raised %r" % (i, c))
                 return
-            c = np.asarray(c, float)
-            if c.size != N:
-                cx.fail("par2fun", "shape", "par2fun(e_i) has %d entries for %d nodes" % (c.size, N))
+            c = _fit(c, (N,))
+            if c is None:
+                cx.fail("par2fun", "shape", "par2fun(e_i) does not have one entry for each of the %d nodes" % N)
                 return
-            cols.append(c.reshape(N))
+            cols.append(c.astype(float))
         M = np.array(cols)                      # n x N
         res.evaluations += 1
         if not np.all((M == 0) | (M == 1)):
@@ -533,8 +1072,11 @@ def eval_step(cell, res):
             # column-wise action can still be judged
             for ncol in (2, 3):
                 B = _batch(n, k, ncol)
-                cs = [np.asarray(g.par2fun(B[:, j].copy())) for j in range(ncol)]
-                res.transitions += ncol
+                cs = [_call(res, g.par2fun, B[:, j].copy()) for j in range(ncol)]
+                cs = [_fit(c, (N,)) if okc else None for okc, c in cs]
+                if any(c is None for c in cs):
+                    cx.fail("par2fun", "raises", "par2fun raised / returned a wrong size on a valid parameter vector")
+                    break
                 _batch_check(cx, g.par2fun, "par2fun", B, cs, (N,), ncol)
             first = False
             continue
@@ -544,7 +1086,7 @@ def eval_step(cell, res):
             return np.array([p[obs[kk]] for kk in range(N)], float)
 
         # generic relations (round trip, shapes, batches, Samples, CUQIarray) with the observed partition
-        generic(cx, g, k, nv, inverse=True, ref_par2fun=ref_p2f, samples=first or proj == "max")
+        generic(cx, g, k, nv, inverse=True, ref_par2fun=ref_p2f, samples=full or first or proj == "max", full=full)
         # ---- fun2par is the documented projection; par2fun o fun2par is idempotent ----------------
         red = {"mean": np.mean, "max": np.max, "min": np.min}[proj]
         fvecs = [np.eye(N)[:, i].copy() for i in range(N)] + [refs.dyadic_vec(N, k + 3 * j) for j in range(nv)]
@@ -553,19 +1095,20 @@ def eval_step(cell, res):
             if not ok:
                 cx.fail("fun2par", "raises", "fun2par raised on a function vector: %r" % (q,))
                 break
-            q = np.asarray(q, float)
+            q = _fit(q, (n,))
             ref = np.array([red(f[part[i]]) for i in range(n)])
             res.evaluations += 1
-            if q.size != n or not close(q.reshape(n), ref, 1e-12):
+            if q is None or not close(q, ref, 1e-12):
                 cx.fail("fun2par", "projection,proj=%s" % proj, "fun2par(f) is not the %s over the nodes of each step" % proj,
                         f=f, impl=q, ref=ref)
                 break
-            f1 = np.asarray(g.par2fun(q.reshape(n).copy()), float).reshape(N)
-            q1 = np.asarray(g.fun2par(f1.copy()), float).reshape(n)
-            f2 = np.asarray(g.par2fun(q1.copy()), float).reshape(N)
-            res.transitions += 3
+            it = _iterate(res, g, q.astype(float), n, N)
+            if it is None:
+                cx.fail("projection", "raises", "par2fun/fun2par raised / returned a wrong size while iterating the projection")
+                break
+            f1, q1, f2 = it
             res.evaluations += 1
-            if not close(f2, f1, 1e-12) or not close(q1, q.reshape(n), 1e-12):
+            if not close(f2, f1, 1e-12) or not close(q1, q, 1e-12):
                 cx.fail("projection", "not-idempotent,proj=%s" % proj, "par2fun(fun2par(.)) applied twice changes the result",
                         f=f, once=f1, twice=f2)
                 break
@@ -615,20 +1158,18 @@ def eval_kl(cell, res):
         if not ok:
             cx.fail("fun2par", "raises", "fun2par raised on a function vector: %r" % (q,))
             break
-        q = np.asarray(q, float)
-        if q.size != meff:
-            cx.fail("fun2par", "shape", "fun2par returned %d coefficients for %d modes" % (q.size, meff))
+        q = _fit(q, (meff,))
+        if q is None:
+            cx.fail("fun2par", "shape", "fun2par did not return one coefficient for each of the %d modes" % meff)
             break
-        try:
-            f1 = np.asarray(g.par2fun(q.reshape(meff).copy()), float).reshape(N)
-            q1 = np.asarray(g.fun2par(f1.copy()), float).reshape(meff)
-            f2 = np.asarray(g.par2fun(q1.copy()), float).reshape(N)
-        except Exception as e:
-            cx.fail("projection", "raises", "par2fun/fun2par raised while iterating the projection: %r" % (e,))
+        q = q.astype(float)
+        it = _iterate(res, g, q, meff, N)
+        if it is None:
+            cx.fail("projection", "raises", "par2fun/fun2par raised / returned a wrong size while iterating the projection")
             break
-        res.transitions += 3
+        f1, q1, f2 = it
         res.evaluations += 1
-        if not close(f2, f1, 1e-9) or not close(q1, q.reshape(meff), 1e-9):
+        if not close(f2, f1, 1e-9) or not close(q1, q, 1e-9):
             cx.fail("projection", "not-idempotent", "par2fun(fun2par(.)) applied twice changes the result", f=f, once=f1, twice=f2)
             break
         if meff == N and not close(f1, f, 1e-9):
@@ -653,7 +1194,7 @@ def eval_kl(cell, res):
         if not ok or not okq:
             cx.fail("regrid", "maps-raise-after-new-grid", "after assigning a new grid (documented use) the maps raise: %r"
                     % ((a if not ok else qa),))
-        elif g.par_dim != m2 or np.asarray(a).size != N2 or not close(np.asarray(a).reshape(-1), B2 @ p, 1e-9) \
+        elif _call(res, lambda: g.par_dim)[1] != m2 or np.asarray(a).size != N2 or not close(np.asarray(a).reshape(-1), B2 @ p, 1e-9) \
                 or np.asarray(qa).size != m2 or not close(np.asarray(qa).reshape(-1), p, 1e-9):
             cx.fail("regrid", "stale-cached-scalings", "after assigning a new grid the maps differ from the documented "
                     "series of the new grid", impl=a, ref=B2 @ p, back=qa)
@@ -669,7 +1210,9 @@ def eval_c2d(cell, res):
     n1, n2, k, nv = cell["n1"], cell["n2"], cell["cat"], cell["nv"]
     cx = Ctx(res, "Continuous2D")
     grid = (n1, n2) if cell["grid"] == "int" else (0.1 + 0.7 * np.arange(n1), list(-0.3 + 0.25 * np.arange(n2)))
-    g = Continuous2D(grid)
+    g = _construct(cx, Continuous2D, grid)
+    if g is None:
+        return
     res.state("c2d")
     cx.shape("par_shape", g.par_shape, (n1 * n2,))
     cx.shape("fun_shape", g.fun_shape, (n1, n2))
@@ -687,11 +1230,37 @@ def _bijection(cx, Fbasis, dim):
         cx.fail("par2fun", "not-a-bijection", "par2fun(e_i) does not put each parameter on exactly one node", M=M)
 
 
+def _img_f2v(r, c, order, vo):
+    """Reference vector form of an image: the documented row-major / column-major enumeration of the pixels
+    (a visual-only image IS its vector: None = identity)."""
+    if vo:
+        return None
+
+    def f2v(f):
+        out = np.zeros(r * c)
+        for a in range(r):
+            for b in range(c):
+                out[a * c + b if order == "C" else a + r * b] = f[a, b]
+        return out
+    return f2v
+
+
+def _construct(cx, cls, *a, **kw):
+    ok, g = _call(cx.res, cls, *a, **kw)
+    if not ok:
+        cx.res.refused += 1
+        cx.fail("construct", "refused", "%s refused a documented configuration: %r" % (cls.__name__, g))
+        return None
+    return g
+
+
 def eval_img(cell, res):
     from cuqi.geometry import Image2D
     r, c, order, vo, k, nv = cell["r"], cell["c"], cell["order"], cell["vo"], cell["cat"], cell["nv"]
     cx = Ctx(res, "Image2D", "order=%s,visual_only=%s" % (order, vo))
-    g = Image2D((r, c), order=order, visual_only=vo)
+    g = _construct(cx, Image2D, (r, c), order=order, visual_only=vo)
+    if g is None:
+        return
     res.state("img")
     cx.shape("par_shape", g.par_shape, (r * c,))
     cx.shape("fun_shape", g.fun_shape, (r * c,) if vo else (r, c))
@@ -704,7 +1273,7 @@ def eval_img(cell, res):
             for b in range(c):
                 out[a, b] = p[a * c + b] if order == "C" else p[a + r * b]
         return out
-    F = generic(cx, g, k, nv, inverse=True, ref_par2fun=ref, has_vec=True)
+    F = generic(cx, g, k, nv, inverse=True, ref_par2fun=ref, has_vec=True, ref_fun2vec=_img_f2v(r, c, order, vo))
     if F is not None:
         _bijection(cx, F[:r * c], r * c)
     res.sample = {"fun_shape": g.fun_shape, "order": order}
@@ -714,7 +1283,9 @@ def eval_disc(cell, res):
     from cuqi.geometry import Discrete
     n, k, nv = cell["n"], cell["cat"], cell["nv"]
     cx = Ctx(res, "Discrete")
-    g = Discrete(["name%d" % i for i in range(n)] if cell["named"] else n)
+    g = _construct(cx, Discrete, ["name%d" % i for i in range(n)] if cell["named"] else n)
+    if g is None:
+        return
     res.state("disc")
     cx.shape("par_shape", g.par_shape, (n,))
     cx.shape("fun_shape", g.fun_shape, (n,))
@@ -722,7 +1293,13 @@ def eval_disc(cell, res):
 
 
 def _mapped_base(name):
-    from cuqi.geometry import Continuous1D, Continuous2D, Image2D, StepExpansion, KLExpansion
+    from cuqi.geometry import Continuous1D, Continuous2D, Image2D, StepExpansion, KLExpansion, Discrete
+    if name == "disc":
+        return Discrete(4), None
+    if name == "imgCvo":
+        return Image2D((3, 2), order="C", visual_only=True), None
+    if name == "imgFvo":
+        return Image2D((2, 3), order="F", visual_only=True), None
     if name == "c1d":
         return Continuous1D(np.linspace(0, 1, 5)), None
     if name == "c2d":
@@ -742,12 +1319,19 @@ def eval_mapped(cell, res):
     from cuqi.geometry import MappedGeometry
     k, nv = cell["cat"], cell["nv"]
     cx = Ctx(res, "MappedGeometry", "base=%s" % cell["base"])
-    base, _ = _mapped_base(cell["base"])
+    ok, base = _call(res, lambda: _mapped_base(cell["base"])[0])
+    if not ok:
+        cx.fail("construct", "refused", "the wrapped geometry refused a documented configuration: %r" % (base,))
+        return
     if cell["map"] == "affine":
-        fmap, imap = (lambda x: 2.0 * x + 1.0), (lambda f: (f - 1.0) / 2.0)
+        fmap, imap = (lambda x: 2.0 * np.asarray(x) + 1.0), (lambda f: (np.asarray(f) - 1.0) / 2.0)
+    elif cell["map"] == "quarter":
+        fmap, imap = (lambda x: np.asarray(x) / 4), (lambda f: np.asarray(f) * 4)
     else:
         fmap, imap = (lambda x: np.exp(x)), (lambda f: np.log(f))
-    g = MappedGeometry(base, map=fmap, imap=imap)
+    g = _construct(cx, MappedGeometry, base, map=fmap, imap=imap)
+    if g is None:
+        return
     res.state("mapped")
     base2, _ = _mapped_base(cell["base"])
 
@@ -755,10 +1339,13 @@ def eval_mapped(cell, res):
         return fmap(np.asarray(base2.par2fun(np.array(p, float)), float))
     cx.shape("par_shape", g.par_shape, base2.par_shape)
     has_vec = cell["base"] != "c2d"
-    generic(cx, g, k, nv, inverse=True, ref_par2fun=ref, has_vec=has_vec)
+    f2v = {"imgC": _img_f2v(3, 2, "C", False), "imgF": _img_f2v(2, 3, "F", False)}.get(cell["base"])
+    generic(cx, g, k, nv, inverse=True, ref_par2fun=ref, has_vec=has_vec, ref_fun2vec=f2v)
     # without an inverse map fun2par must refuse, not return something
-    g0 = MappedGeometry(base, map=fmap)
-    ok, out = _call(res, g0.fun2par, np.ones(g.fun_shape))
+    g0 = _construct(cx, MappedGeometry, base, map=fmap)
+    if g0 is None:
+        return
+    ok, out = _call(res, lambda: g0.fun2par(np.ones(g.fun_shape)))
     if ok:
         cx.fail("fun2par", "no-imap-returns", "fun2par without an inverse map returned a value")
     else:
@@ -772,31 +1359,44 @@ def eval_default(cell, res):
     if kind == "default2d":
         r, c = cell["r"], cell["c"]
         cx = Ctx(res, "_DefaultGeometry2D")
-        g = _DefaultGeometry2D((r, c))
+        g = _construct(cx, _DefaultGeometry2D, (r, c))
+        if g is None:
+            return
         res.state("default2d")
         cx.shape("fun_shape", g.fun_shape, (r, c))
 
         def ref(p):
             return np.array([[p[a * c + b] for b in range(c)] for a in range(r)], float)
-        generic(cx, g, k, nv, inverse=True, ref_par2fun=ref)
+        generic(cx, g, k, nv, inverse=True, ref_par2fun=ref, ref_fun2vec=_img_f2v(r, c, "C", False))
         return
     n = cell["n"]
     ident = lambda p: np.array(p, float)  # noqa
     if kind == "default1d":
-        cx, g = Ctx(res, "_DefaultGeometry1D"), _DefaultGeometry1D(n)
+        cx = Ctx(res, "_DefaultGeometry1D")
+        g = _construct(cx, _DefaultGeometry1D, n)
     elif kind == "c1d-int":
-        cx, g = Ctx(res, "Continuous1D"), Continuous1D(n)
+        cx = Ctx(res, "Continuous1D")
+        g = _construct(cx, Continuous1D, n)
     elif kind == "c1d-tuple":
-        cx, g = Ctx(res, "Continuous1D"), Continuous1D((n,))
+        cx = Ctx(res, "Continuous1D")
+        g = _construct(cx, Continuous1D, (n,))
     elif kind == "c1d-list":
-        cx, g = Ctx(res, "Continuous1D"), Continuous1D([0.5 * i - 1 for i in range(n)])
+        cx = Ctx(res, "Continuous1D")
+        g = _construct(cx, Continuous1D, [0.5 * i - 1 for i in range(n)])
     elif kind == "samples-default":
         cx = Ctx(res, "Samples-default-geometry")
-        S = cuqi.samples.Samples(_batch(n, k, 3))
-        g = S.geometry
+        ok, g = _call(res, lambda: cuqi.samples.Samples(_batch(n, k, 3)).geometry)
+        if not ok:
+            cx.fail("construct", "refused", "Samples without a geometry does not provide the default one: %r" % (g,))
+            g = None
     else:
         cx = Ctx(res, "CUQIarray-default-geometry")
-        g = cuqi.array.CUQIarray(refs.dyadic_vec(n, k)).geometry
+        ok, g = _call(res, lambda: cuqi.array.CUQIarray(refs.dyadic_vec(n, k)).geometry)
+        if not ok:
+            cx.fail("construct", "refused", "CUQIarray without a geometry does not provide the default one: %r" % (g,))
+            g = None
+    if g is None:
+        return
     res.state(kind)
     cx.shape("par_shape", g.par_shape, (n,))
     cx.shape("fun_shape", g.fun_shape, (n,))
@@ -812,10 +1412,45 @@ FAMS = {"step": eval_step, "kl": eval_kl, "c2d": eval_c2d, "img": eval_img, "dis
         "mapped": eval_mapped, "default": eval_default}
 
 
+COMP = {"step": "StepExpansion", "kl": "KLExpansion", "c2d": "Continuous2D", "img": "Image2D", "disc": "Discrete",
+        "mapped": "MappedGeometry", "default": "default-geometry"}
+
+
+def _library_frame(tb):
+    """Name of the innermost library function of a traceback if the exception was raised below library code that
+    the harness called (no harness frame further in), else None."""
+    import cuqi
+    lib = os.path.dirname(os.path.abspath(cuqi.__file__)) + os.sep
+    here = os.path.dirname(os.path.abspath(__file__)) + os.sep
+    last_lib = last_harness = None
+    i = 0
+    while tb is not None:
+        fn = os.path.abspath(tb.tb_frame.f_code.co_filename)
+        if fn.startswith(lib):
+            last_lib = (i, tb.tb_frame.f_code.co_name)
+        elif fn.startswith(here) or (os.sep + "vfw" + os.sep) in fn:
+            last_harness = i
+        i += 1
+        tb = tb.tb_next
+    if last_lib is not None and (last_harness is None or last_lib[0] > last_harness):
+        return last_lib[1]
+    return None
+
+
 def eval_cell(cell):
     import cuqi  # noqa: imports the tree selected by VERIF_REPO
     res = CellResult(cell)
-    FAMS[cell["fam"]](cell, res)
+    try:
+        FAMS[cell["fam"]](cell, res)
+    except Exception as e:  # noqa
+        # safety net: every library call above is guarded individually; should one be reached unguarded, a raise of
+        # the LIBRARY (geometry attribute access, conversions ...) on admissible input is a verdict, not a harness
+        # error.  Exceptions raised by harness code itself propagate (exit 2).
+        where = _library_frame(e.__traceback__)
+        if where is None:
+            raise
+        res.fail("C13|%s|raises|in=%s" % (COMP[cell["fam"]], where),
+                 "the library raised on admissible input where the statement allows no refusal: %r" % (e,))
     if res.transitions == 0:
         res.nontrivial = False
     return res
